@@ -297,6 +297,17 @@ fn do_op(ctx: &mut Ctx, line: &str) -> String {
             v.sort();
             format!("{} {}", v.len(), v.join(";"))
         }
+        "gennull" => {
+            // generation from the NULL-MOVE clone of the current board, built as engine.rs builds it:
+            // side to move flipped in memory, everything else (en passant target, key) kept
+            let mode = if rest == "cap" { MoveGenerationMode::CapturesOnly } else { MoveGenerationMode::AllMoves };
+            let mut b = ctx.cur.clone();
+            b.to_move = ctx.cur.to_move.opposite();
+            let moves = generate_moves(&b, mode, &ctx.hasher);
+            let mut v: Vec<String> = moves.iter().map(succ_str).collect();
+            v.sort();
+            format!("{} {}", v.len(), v.join(";"))
+        }
         "pick" | "pickc" => {
             let mode = if op == "pickc" { MoveGenerationMode::CapturesOnly } else { MoveGenerationMode::AllMoves };
             let moves = generate_moves(&ctx.cur, mode, &ctx.hasher);
